@@ -106,6 +106,17 @@ class Transport:
         raise Unsupported("sendto")
 
 
+class _Handle:
+    def __init__(self, callback, args):
+        self.callback, self.args, self.cancelled_ = callback, args, False
+
+    def cancel(self):
+        self.cancelled_ = True
+
+    def cancelled(self):
+        return self.cancelled_
+
+
 class Loop:
     def __init__(self, world):
         self.world = world
@@ -115,6 +126,7 @@ class Loop:
         w = self.world
         if w.yield_points:
             await _Yield()
+        w.run_ready()  # a real suspension point: the loop cycles at least once before the endpoint exists
         if local_addr is None or sock is not None:
             raise Unsupported("create_datagram_endpoint without local_addr")
         port = local_addr[1]
@@ -131,8 +143,13 @@ class Loop:
         protocol.connection_made(tr)
         return tr, protocol
 
-    def call_soon(self, *a, **k):
-        raise Unsupported("loop.call_soon")
+    def call_soon(self, callback, *args, context=None):
+        """queued for the next loop cycle (World.cycle, or a real suspension point of a stub)"""
+        h = _Handle(callback, args)
+        self.world.ready.append(h)
+        return h
+
+    call_soon_threadsafe = call_soon
 
     def create_task(self, *a, **k):
         raise Unsupported("loop.create_task")
@@ -154,6 +171,7 @@ class World:
         self.outsiders = set()
         self.all_transports = []
         self.pending_lost = []
+        self.ready = []
         self.loop = Loop(self)
         self.loop_errors = []
 
@@ -166,8 +184,20 @@ class World:
         return self.reply_fn(conn, k)
 
     # ---- loop side of the UDP contract
+    def run_ready(self):
+        """callbacks queued by call_soon before this cycle run now (those they queue wait for the next one)"""
+        batch, self.ready = self.ready, []
+        for h in batch:
+            if h.cancelled_:
+                continue
+            try:
+                h.callback(*h.args)
+            except Exception as e:
+                self.loop_errors.append(e)
+
     def cycle(self):
-        """the loop cycles once: closed transports report connection_lost(None)"""
+        """the loop cycles once: queued callbacks run, closed transports report connection_lost(None)"""
+        self.run_ready()
         for tr in self.pending_lost:
             try:
                 tr.protocol.connection_lost(None)
